@@ -8,7 +8,9 @@ product VARIANT the code realises (Dropped | Hamilton) is decided here.  The bat
 misorientation_indices (process pools) is compared with the sequential values at run time
 only (declared partial).  Large aggregates (grain counts / pair-row counts on both sides of size boundaries, ordered
 heterogeneous textures, reorderings, row-wise evaluation of big row stacks) are a family of their own (`large_aggregates`),
-stored in replay files as recipes.  Known defects of the unchanged tree are printed as
+stored in replay files as recipes.  Call histories (sequences of public calls in one process, the caller editing what it
+was handed between calls; `call_histories`) run in forked children and, for the search / a replay, in new interpreters.
+Known defects of the unchanged tree are printed as
 KNOWN-FINDING while their witnesses reproduce; any other disagreement is a VIOLATION."""
 from __future__ import annotations
 
@@ -1256,6 +1258,675 @@ def search_large(chk, extra, add, nothing_found_yet):
 
 
 # --------------------------------------------------------------------------
+# call histories: sequences of public calls in ONE process where the caller edits what it was handed
+#
+# The models are pure functions: the value of a call is a function of its arguments.  A single call cannot see an
+# implementation that keeps what it returns (a result cache handing out its stored mutable objects, a module-level table
+# returned by reference, a result that is a view of an argument buffer): the first call of every process is right.  This
+# family runs HISTORIES: sequences of public calls of the modules C14 is anchored in -- geometry.symmetry_operations,
+# geometry.misorientation_angles, stats.misorientation_hist, stats.misorientations_random, diagnostics.misorientation_index,
+# diagnostics.misorientation_indices (ncpus / a pool opened EARLIER in the history) -- where BETWEEN calls the caller
+#   * edits in place an object an earlier call RETURNED (the list of operators truncated / reversed / entries dropped or
+#     duplicated, its arrays rescaled / component-rolled / negated / zeroed; a returned histogram and its edges rescaled; a
+#     returned array of indices or angles overwritten), or
+#   * reuses its own argument buffers (the orientation buffer / the quaternion buffers overwritten with the next input).
+# Every call goes through argguard.guarded; every later call is judged ON ITS OWN by the property text:
+#   index a number in [0, upper] (the bounds oracle_texture uses); unchanged under a reordering of the grains (1e-9); equal to
+#   the index rebuilt from misorientation_hist + misorientations_random; the batched variant equal to the per-snapshot values;
+#   observed density a probability density; pair angles in [0, 180]; a result the caller did NOT edit is unchanged by later
+#   calls; two calls of the history with equal argument values give equal values; and every call gives the value the SAME
+#   call with the same argument values gives in a REFERENCE process in which the caller never edits a result (buffer reuse
+#   is kept there: it defines the arguments).
+# A history is a small JSON recipe (textures are regenerated from (kind, n, seed)): that is what a replay file stores.
+# Correspondence: history and reference run in forked children of the harness process (compiled kernels inherited, the
+# harness process itself never edits a result, so it stays clean on a changed tree); the operator lists returned INSIDE a
+# history are compared with the extracted model table.  Search / replay: history and reference each in a NEW interpreter.
+# --------------------------------------------------------------------------
+HISTORY_FUNCTIONS = ("symmetry_operations", "misorientation_angles", "misorientation_hist", "misorientations_random",
+                     "misorientation_index", "misorientation_indices")
+LIST_EDITS = ("truncate", "reverse", "drop-first", "duplicate-last", "swap-ends")
+ARRAY_EDITS = ("scale", "roll", "negate", "zero", "flip")
+# edits of a returned operator list (each a list of elementary edits), rotated over the lattice systems by the seed
+OPERATOR_EDIT_PLANS = (
+    (("truncate", None), ("each:roll", None)),     # keep the leading half (the quaternion operators), scalar-first component order
+    (("reverse", None),),
+    (("each:scale", 3.0),),
+    (("drop-first", None), ("each:negate", None)),
+    (("swap-ends", None), ("duplicate-last", None)),
+    (("each:zero", None),),
+    (("truncate", 1), ("each:flip", None)),
+)
+
+
+def enc(v):
+    """JSON-able, bit-exact encoding of a returned value"""
+    if isinstance(v, dict) and "err" in v:
+        return v
+    if isinstance(v, np.ndarray):
+        return {"a": [hx(x) for x in np.asarray(v, dtype=float).reshape(-1)], "shape": list(v.shape), "dtype": str(v.dtype)}
+    if isinstance(v, (list, tuple)):
+        return {"l": [enc(x) for x in v]}
+    if isinstance(v, (float, int, np.floating, np.integer)):
+        return {"f": hx(float(v))}
+    return {"repr": repr(v)[:200]}
+
+
+def dec_floats(e):
+    """all numbers of an encoded value, flat; None for an error"""
+    if "err" in e or "repr" in e:
+        return None
+    if "f" in e:
+        return [common.unhx(e["f"])]
+    if "a" in e:
+        return [common.unhx(x) for x in e["a"]]
+    out = []
+    for x in e["l"]:
+        d = dec_floats(x)
+        if d is None:
+            return None
+        out += d
+    return out
+
+
+def enc_shape(e):
+    if "err" in e:
+        return ("err", e["err"])
+    if "a" in e:
+        return ("a", tuple(e["shape"]))
+    if "l" in e:
+        return ("l", tuple(enc_shape(x) for x in e["l"]))
+    if "f" in e:
+        return ("f",)
+    return ("repr", e.get("repr"))
+
+
+def same_enc(a, b, tol=1e-12):
+    """equal results of the same call: the same error, or the same structure with numbers within tol (NaN = NaN)"""
+    if ("err" in a) or ("err" in b):
+        return a.get("err") == b.get("err")
+    if enc_shape(a) != enc_shape(b):
+        return False
+    x, y = dec_floats(a), dec_floats(b)
+    if x is None or y is None:
+        return a == b
+    x, y = np.array(x, dtype=float), np.array(y, dtype=float)
+    if x.shape != y.shape:
+        return False
+    both_nan = np.isnan(x) & np.isnan(y)
+    with np.errstate(invalid="ignore"):
+        return bool(np.all(both_nan | (np.abs(x - y) <= tol) | (x == y)))
+
+
+def show_enc(e, k=4):
+    if "err" in e:
+        return "ERR:" + str(e["err"])
+    d = dec_floats(e)
+    if d is None:
+        return str(e)[:80]
+    if "f" in e:
+        return repr(d[0])
+    return f"{enc_shape(e)[:2]} [{', '.join(f'{x:.6g}' for x in d[:k])}{', ...' if len(d) > k else ''}]"
+
+
+def apply_edit(obj, edit, param, env):
+    """one in-place edit of an object the caller holds; returns the elementary edits actually made"""
+    import argguard
+    done = []
+    if edit.startswith("each:"):
+        for _, a in argguard.result_arrays(obj):
+            done += apply_edit(a, edit[5:], param, env)
+        return done
+    if isinstance(obj, list):
+        n = len(obj)
+        if edit == "truncate":
+            del obj[(param if param is not None else (n + 1) // 2):]
+        elif edit == "reverse":
+            obj.reverse()
+        elif edit == "drop-first":
+            del obj[:1]
+        elif edit == "duplicate-last" and n:
+            obj.append(np.array(obj[-1], copy=True))
+        elif edit == "swap-ends" and n > 1:
+            obj[0], obj[-1] = obj[-1], obj[0]
+        else:
+            return done
+        return [f"list:{edit}"]
+    if isinstance(obj, np.ndarray):
+        if not obj.flags.writeable:
+            return ["array:read-only"]
+        if edit == "scale":      # (the reflections of the operator lists are INTEGER matrices: np.diag of an int list)
+            c = param if param is not None else 3.0
+            obj *= (int(c) if obj.dtype.kind in "iu" else c)
+        elif edit == "roll":
+            obj[...] = np.roll(obj, 1, axis=-1)
+        elif edit == "negate":
+            np.negative(obj, out=obj)
+        elif edit == "zero":
+            obj[...] = 0
+        elif edit == "flip":
+            obj[...] = obj[..., ::-1].copy()
+        elif edit == "assign":
+            obj[...] = env[param]
+        else:
+            return done
+        return [f"array:{edit}"]
+    return done
+
+
+def _arg_digest(fn, system, arrays, scalars):
+    import hashlib
+    h = hashlib.sha1()
+    for a in arrays:
+        a = np.asarray(a)
+        h.update(str(a.shape).encode() + str(a.dtype).encode() + np.ascontiguousarray(a).tobytes())
+    return f"{fn}|{system}|{scalars}|{h.hexdigest()[:16]}"
+
+
+def run_history(H):
+    """execute one history in THIS process (call it in a forked child or a new interpreter only: on a changed tree the
+    process is polluted afterwards).  Returns a JSON-able record: one entry per public call."""
+    import pydrex.diagnostics as dg
+    import pydrex.stats as st
+    import pydrex.geometry as geo
+    import argguard
+    env, held, calls, pools, edits_made = {}, {}, [], [], []
+    prng = np.random.default_rng([int(H.get("seed", 0)), 1414])
+    uppers = {}
+
+    def upper(name):
+        if name not in uppers:
+            s = lattice(geo, name)
+            th = st._max_misorientation(s)
+            try:
+                T = float(sum(st.misorientations_random(i, i + 1, s) for i in range(th)))
+                uppers[name] = 1 + 1e-3 if name in GOOD_MASS else (1 + T) / 2 + 1e-9
+            except Exception:  # noqa: BLE001
+                uppers[name] = None
+        return uppers[name]
+
+    def call(fn, args, kwargs=None):
+        try:
+            r, faults = argguard.guarded(fn, args, kwargs or {})
+            return r, faults
+        except Exception as e:  # noqa: BLE001
+            return {"err": common.exc_code(e)}, list(getattr(e, "argguard_faults", []))
+
+    def check_held(pos, faults):
+        # a result the caller did not edit must not change behind the caller's back
+        for name, (obj, pristine, edited) in held.items():
+            if edited:
+                continue
+            if not same_enc(enc(obj), pristine, tol=0.0):
+                faults.append(f"the result `{name}` of an earlier call (never edited by the caller) changed: it was "
+                              f"{show_enc(pristine)} when returned and is {show_enc(enc(obj))} after step {pos}")
+                held[name] = (obj, enc(obj), False)
+
+    try:
+        with warnings.catch_warnings():
+            warnings.simplefilter("ignore")
+            for pos, stp in enumerate(H["steps"]):
+                op = stp["op"]
+                if op == "skip":
+                    continue
+                if op == "texture":
+                    env[stp["as"]] = np.ascontiguousarray(texture(np.random.default_rng(stp["seed"]), stp["kind"], stp["n"]))
+                elif op == "stack":
+                    env[stp["as"]] = np.stack([env[k] for k in stp["of"]])
+                elif op == "quats":
+                    q = np.random.default_rng(stp["seed"]).normal(0, 1, (stp["rows"], stp["cols"], 4))
+                    env[stp["as"]] = q / np.linalg.norm(q, axis=-1, keepdims=True)
+                elif op == "copy":
+                    env[stp["as"]] = np.array(env[stp["of"]], copy=True)
+                elif op == "pool":
+                    p = multiprocessing.get_context("fork").Pool(processes=stp["workers"])
+                    pools.append(p)
+                    env[stp["as"]] = p
+                elif op == "edit":
+                    tgt = stp["of"]
+                    obj = held[tgt][0] if tgt in held else env[tgt]
+                    made = apply_edit(obj, stp["edit"], stp.get("param"), env)
+                    edits_made += made
+                    if tgt in held:
+                        held[tgt] = (held[tgt][0], held[tgt][1], True)
+                    faults = []
+                    check_held(pos, faults)
+                    if faults:
+                        calls.append(dict(step=pos, fn="(edit)", key=None, value={"repr": "edit"}, faults=faults))
+                elif op == "probe":
+                    name = stp["system"]
+                    s = lattice(geo, name)
+                    if stp["fn"] == "symmetry_operations":
+                        fl = argguard.fresh_result_probe(geo.symmetry_operations, lambda: ((s,), {}))
+                    else:
+                        tex = env[stp["texture"]]
+                        fl = argguard.fresh_result_probe(st.misorientation_hist, lambda: ((tex.copy(), s), {}))
+                    calls.append(dict(step=pos, fn="probe:" + stp["fn"], key=None, value={"repr": "probe"},
+                                      faults=[f"fresh_result_probe({stp['fn']}, {name}): {f}" for f in fl]))
+                elif op == "call":
+                    fn, a = stp["fn"], stp.get("args", {})
+                    name = a.get("system")
+                    s = lattice(geo, name) if name else None
+                    entry = dict(step=pos, fn=fn, system=name, faults=[])
+                    if fn == "symmetry_operations":
+                        r, fl = call(geo.symmetry_operations, (s,))
+                        entry["key"] = _arg_digest(fn, name, (), "")
+                    elif fn == "misorientations_random":
+                        r, fl = call(st.misorientations_random, (a["low"], a["high"], s))
+                        entry["key"] = _arg_digest(fn, name, (), (a["low"], a["high"]))
+                    elif fn == "misorientation_angles":
+                        q1, q2 = env[a["q1"]], env[a["q2"]]
+                        entry["key"] = _arg_digest(fn, None, (q1, q2), "")
+                        r, fl = call(geo.misorientation_angles, (q1, q2))
+                        if isinstance(r, np.ndarray):
+                            rr = np.asarray(r, dtype=float)
+                            if rr.shape != (len(q1),) or np.any(~np.isfinite(rr)) or np.any(rr < 0) or np.any(rr > 180 + 1e-9):
+                                entry["faults"].append(f"misorientation_angles of unit quaternions returns {show_enc(enc(r))}: not "
+                                                       f"{len(q1)} angles in [0, 180]")
+                    elif fn == "misorientation_hist":
+                        os_ = env[a["texture"]]
+                        entry["key"] = _arg_digest(fn, name, (os_,), "")
+                        r, fl = call(st.misorientation_hist, (os_, s))
+                        if isinstance(r, tuple):
+                            h = np.asarray(r[0], dtype=float)
+                            if np.all(np.isfinite(h)) and (abs(h.sum() - 1) > 1e-9 or np.any(h < 0)):
+                                entry["faults"].append("observed misorientation density is not a probability density on unit bins")
+                    elif fn == "misorientation_index":
+                        os_ = env[a["texture"]]
+                        entry["key"] = _arg_digest(fn, name, (os_,), "")
+                        r, fl = call(dg.misorientation_index, (os_, s))
+                        if not isinstance(r, dict):
+                            r = float(r)
+                            entry["upper"] = upper(name)
+                            perm = prng.permutation(len(os_))
+                            r2, fl2 = call(dg.misorientation_index, (np.ascontiguousarray(os_[perm]), s))
+                            entry["reordered"] = enc(r2 if isinstance(r2, dict) else float(r2))
+                            fl = fl + fl2
+                            try:
+                                entry["rebuilt"] = enc(rebuilt_index(st, os_, s))
+                            except Exception as e:  # noqa: BLE001
+                                entry["rebuilt"] = {"err": common.exc_code(e)}
+                    elif fn == "misorientation_indices":
+                        stack = env[a["stack"]]
+                        entry["key"] = _arg_digest(fn, name, (stack,), "")
+                        per = []
+                        for o in stack:
+                            v, flv = call(dg.misorientation_index, (o, s))
+                            per.append(v if isinstance(v, dict) else float(v))
+                        entry["per_snapshot"] = enc(per) if not any(isinstance(v, dict) for v in per) else {"err": "per-snapshot call raised"}
+                        if "pool" in a:
+                            pl = env[a["pool"]]
+                            r, fl = call(lambda st_, s_: dg.misorientation_indices(st_, s_, pool=pl), (stack, s))
+                            entry["how"] = f"pool of {a['pool']} opened at an earlier step"
+                        else:
+                            r, fl = call(lambda st_, s_: dg.misorientation_indices(st_, s_, ncpus=a.get("ncpus", 2)), (stack, s))
+                            entry["how"] = f"ncpus={a.get('ncpus', 2)}"
+                    else:
+                        raise ValueError(f"unknown function {fn}")
+                    entry["faults"] += [f"{fn}: argument {f}" for f in fl]
+                    entry["value"] = enc(r)
+                    if stp.get("as"):
+                        held[stp["as"]] = (r, enc(r), False)
+                    check_held(pos, entry["faults"])
+                    calls.append(entry)
+                else:
+                    raise ValueError(f"unknown step {op}")
+    finally:
+        for p in pools:
+            try:
+                p.terminate()
+                p.join()
+            except Exception:  # noqa: BLE001
+                pass
+    return dict(id=H.get("id"), calls=calls, edits_made=edits_made)
+
+
+def reference_history(H):
+    """the same calls with the same argument values, the caller never edits a RESULT (buffer reuse stays: it defines the
+    arguments; probes scribble over results and are dropped)"""
+    results = {s["as"] for s in H["steps"] if s["op"] == "call" and s.get("as")}
+    steps = [dict(op="skip") if (s["op"] == "edit" and s["of"] in results) or s["op"] == "probe" else s for s in H["steps"]]   # positions kept
+    return dict(H, id=str(H.get("id")) + ":reference", steps=steps)
+
+
+def judge_history(H, rec, ref):
+    """the property text on every call of the history (see the header of this section)"""
+    fails = []
+    if rec is None or "crash" in rec:
+        return [f"history {H.get('id')}: the run did not complete ({(rec or {}).get('crash', 'no result')[-300:]})"]
+    if ref is None or "crash" in ref:
+        return [f"history {H.get('id')}: the reference run did not complete ({(ref or {}).get('crash', 'no result')[-300:]})"]
+    what = f"history {H.get('id')}"
+    refcalls = {(c["step"], c["fn"]): c for c in ref["calls"]}
+    first = {}
+    for c in rec["calls"]:
+        at = f"{what}, step {c['step']} ({c['fn']}" + (f", {c['system']}" if c.get("system") else "") + ")"
+        for f in c["faults"]:
+            fails.append(f"{at}: {f}")
+        if c["fn"] not in HISTORY_FUNCTIONS:
+            continue
+        v = c["value"]
+        r = refcalls.get((c["step"], c["fn"]))
+        if r is not None and not same_enc(v, r["value"]):
+            fails.append(f"{at}: returns {show_enc(v)}; the same call with the same argument values in a process where the caller "
+                         f"never edited a returned object gives {show_enc(r['value'])} (the result depends on what the caller did "
+                         f"to objects it was handed earlier)")
+        k = c.get("key")
+        if k is not None:
+            if k in first and not same_enc(first[k][1], v):
+                fails.append(f"{at}: returns {show_enc(v)}, the same call with equal argument values returned {show_enc(first[k][1])} at "
+                             f"step {first[k][0]} of the same history")
+            first.setdefault(k, (c["step"], v))
+        if c["fn"] == "misorientation_index" and "f" in v:
+            m = common.unhx(v["f"])
+            ref_nan = r is not None and "f" in r["value"] and math.isnan(common.unhx(r["value"]["f"]))
+            if not math.isfinite(m):
+                if not ref_nan:   # (NaN in the reference too: the recorded finding nan:no-pair-in-range, judged by oracle_texture)
+                    fails.append(f"{at}: M-index is {m!r}, not a number in [0, 1]")
+            else:
+                up = c.get("upper")
+                if up is not None and not (-1e-12 <= m <= up):
+                    fails.append(f"{at}: M-index {m!r} outside [0, {up:.6f}]")
+                if "reordered" in c and not same_enc(v, c["reordered"], tol=1e-9):
+                    fails.append(f"{at}: M-index changes under a permutation of the grains: {m!r} -> {show_enc(c['reordered'])}")
+                if "rebuilt" in c and "f" in c["rebuilt"] and not same_enc(v, c["rebuilt"], tol=1e-9):
+                    fails.append(f"{at}: misorientation_index = {m!r} but misorientation_hist + misorientations_random give "
+                                 f"{show_enc(c['rebuilt'])}")
+        if c["fn"] == "misorientation_indices" and "per_snapshot" in c:
+            ps = c["per_snapshot"]
+            if "err" not in ps and "err" not in v:
+                a, b = dec_floats(v), dec_floats(ps)
+                if not (len(a) == len(b) and np.array_equal(np.array(a), np.array(b), equal_nan=True)):
+                    fails.append(f"{at}: misorientation_indices ({c.get('how')}) = {a} but the per-snapshot values are {b}")
+            elif ("err" in v) != ("err" in ps):
+                fails.append(f"{at}: misorientation_indices ({c.get('how')}) gives {show_enc(v)}, the per-snapshot calls {show_enc(ps)}")
+    return fails
+
+
+def gen_histories(seed, tier):
+    """the histories of the family (JSON recipes); every random choice from the seed"""
+    rng = np.random.default_rng([int(seed), 77])
+    kinds = ("random", "clustered", "tight")
+    hs = []
+
+    def tex(name, kind, n):
+        return dict(op="texture", **{"as": name}, kind=kind, n=int(n), seed=[int(seed), 78, int(rng.integers(0, 2 ** 31))])
+
+    def C(fn, out=None, **args):
+        d = dict(op="call", fn=fn, args=args)
+        if out:
+            d["as"] = out
+        return d
+
+    def E(of, edit, param=None):
+        return dict(op="edit", of=of, edit=edit, param=param)
+
+    def judged_block(name, other, with_pool):
+        """the calls made before and again after the caller's edits"""
+        b = []
+        for sysname in dict.fromkeys((name, other)):
+            if sysname != "rhombohedral":      # (known finding: misorientation_index always raises for rhombohedral)
+                b.append(C("misorientation_index", system=sysname, texture="T"))
+            b.append(C("misorientation_hist", system=sysname, texture="U"))
+        if name != "rhombohedral":
+            if with_pool:
+                b.append(C("misorientation_indices", system=name, stack="S", pool="P"))
+            b.append(C("misorientation_indices", system=name, stack="S", ncpus=2))
+        th = {"tetragonal": 90, "hexagonal": 90, "triclinic": 180, "monoclinic": 180}.get(name, 120)
+        lo = float(int(rng.integers(0, min(th, 100) - 1)))
+        b.append(C("misorientations_random", system=name, low=lo, high=lo + 1.0))
+        b.append(C("symmetry_operations", system=name))
+        return b
+
+    rot = int(rng.integers(0, len(OPERATOR_EDIT_PLANS)))
+    reps = 2 if tier == "quick" else 4
+    for k, name in enumerate(SYSTEMS):
+        other = {"monoclinic": "orthorhombic", "orthorhombic": "monoclinic"}.get(name, name)   # same operators, separate call
+        for rep in range(reps):
+            plan = OPERATOR_EDIT_PLANS[0] if rep == 0 else OPERATOR_EDIT_PLANS[1 + (rot + k * (reps - 1) + rep - 1) % (len(OPERATOR_EDIT_PLANS) - 1)]
+            with_pool = (rep == 0 and name in ("orthorhombic", "hexagonal")) or tier != "quick"
+            n = int(rng.integers(5, 11))
+            steps = [tex("T", kinds[(k + rep) % 3], n), tex("U", kinds[(k + rep + 1) % 3], n), tex("V", "single", n),
+                     dict(op="stack", **{"as": "S"}, of=["T", "U", "V"])]
+            if with_pool:
+                steps.append(dict(op="pool", **{"as": "P"}, workers=2))
+            steps += judged_block(name, other, with_pool)
+            steps.append(C("symmetry_operations", "ops", system=name))
+            steps += [E("ops", e, p) for e, p in plan]
+            steps += judged_block(name, other, with_pool)
+            hs.append(dict(id=f"operators-edited/{name}/{'+'.join(e for e, _ in plan)}", template="returned operator list edited in place",
+                           system=name, seed=int(seed), steps=steps))
+    # a returned histogram (density, edges) rescaled / zeroed in place
+    for j, name in enumerate(("orthorhombic", "triclinic") if tier == "quick" else SYSTEMS):
+        edit = ("each:scale", "each:zero")[j % 2]
+        steps = [tex("T", "clustered", 7), C("misorientation_hist", "h", system=name, texture="T"),
+                 C("misorientation_index", system=name, texture="T") if name != "rhombohedral" else C("misorientation_hist", system=name, texture="T"),
+                 E("h", edit, 5.0 if edit == "each:scale" else None),
+                 C("misorientation_hist", system=name, texture="T")]
+        if name != "rhombohedral":
+            steps.append(C("misorientation_index", system=name, texture="T"))
+        hs.append(dict(id=f"histogram-edited/{name}/{edit}", template="returned histogram edited in place", system=name, seed=int(seed), steps=steps))
+    # a returned array of indices overwritten; the batched call repeated
+    for name in (("monoclinic",) if tier == "quick" else ("monoclinic", "tetragonal", "triclinic")):
+        steps = [tex("T", "random", 6), tex("U", "tight", 6), dict(op="stack", **{"as": "S"}, of=["T", "U"]),
+                 C("misorientation_indices", "m", system=name, stack="S", ncpus=2), E("m", "zero"),
+                 C("misorientation_indices", system=name, stack="S", ncpus=2), C("misorientation_indices", system=name, stack="S", ncpus=1)]
+        hs.append(dict(id=f"indices-edited/{name}/zero", template="returned index array edited in place", system=name, seed=int(seed), steps=steps))
+    # the caller's orientation buffer reused for the next texture (and for the first one again)
+    for name in (("hexagonal", "orthorhombic") if tier == "quick" else [s for s in SYSTEMS if s != "rhombohedral"]):
+        steps = [tex("T", "random", 8), tex("U", "clustered", 8), dict(op="copy", **{"as": "B"}, of="T"),
+                 C("misorientation_index", "v0", system=name, texture="B"), C("misorientation_hist", "h0", system=name, texture="B"),
+                 E("B", "assign", "U"),
+                 C("misorientation_index", "v1", system=name, texture="B"), C("misorientation_index", system=name, texture="U"),
+                 E("B", "assign", "T"),
+                 C("misorientation_index", system=name, texture="B"), C("misorientation_hist", system=name, texture="B")]
+        hs.append(dict(id=f"argument-buffer-reused/{name}", template="argument buffer reused", system=name, seed=int(seed), steps=steps))
+    # quaternion buffers of misorientation_angles reused; a returned array of angles overwritten
+    steps = [dict(op="quats", **{"as": "Q1"}, rows=7, cols=3, seed=[int(seed), 79, 1]), dict(op="quats", **{"as": "Q2"}, rows=7, cols=3, seed=[int(seed), 79, 2]),
+             dict(op="quats", **{"as": "Q3"}, rows=7, cols=3, seed=[int(seed), 79, 3]),
+             C("misorientation_angles", "a0", q1="Q1", q2="Q2"), C("misorientation_angles", "a1", q1="Q1", q2="Q3"), E("a1", "zero"),
+             C("misorientation_angles", q1="Q1", q2="Q3"), E("Q3", "assign", "Q2"), C("misorientation_angles", q1="Q1", q2="Q3"),
+             E("Q2", "assign", "Q1"), C("misorientation_angles", q1="Q1", q2="Q2")]
+    hs.append(dict(id="angles-edited+buffers-reused", template="returned angles edited / quaternion buffers reused", system=None, seed=int(seed), steps=steps))
+    # returned storage not shared between calls (argguard.fresh_result_probe), then the public calls again
+    for name in (("monoclinic", "tetragonal") if tier == "quick" else SYSTEMS):
+        steps = [tex("T", "clustered", 6), dict(op="probe", fn="symmetry_operations", system=name),
+                 dict(op="probe", fn="misorientation_hist", system=name, texture="T"),
+                 C("misorientation_hist", system=name, texture="T"), C("symmetry_operations", system=name)]
+        if name != "rhombohedral":
+            steps.append(C("misorientation_index", system=name, texture="T"))
+        hs.append(dict(id=f"fresh-result-probe/{name}", template="fresh_result_probe then public calls", system=name, seed=int(seed), steps=steps))
+    return hs
+
+
+def _history_child(conn, H):
+    import os as _os
+    import traceback
+    try:
+        conn.send(run_history(H))
+    except BaseException:  # noqa: BLE001
+        try:
+            conn.send(dict(id=H.get("id"), crash=traceback.format_exc()[-1200:]))
+        except Exception:  # noqa: BLE001
+            pass
+    finally:
+        try:
+            conn.close()
+        finally:
+            _os._exit(0)
+
+
+def forked_history_runs(hs, timeout=180.0):
+    """every history in its own forked (non-daemonic: a history may open pools) child of this process, results in order"""
+    import os as _os
+    import time
+    workers = int(_os.environ.get("VERIF_C14_WORKERS", min(6, _os.cpu_count() or 1)))
+    ctx = multiprocessing.get_context("fork")
+    results, pending, running = [None] * len(hs), list(enumerate(hs)), []
+    while pending or running:
+        while pending and len(running) < max(1, workers):
+            i, H = pending.pop(0)
+            rd, wr = ctx.Pipe(False)
+            p = ctx.Process(target=_history_child, args=(wr, H))
+            p.start()
+            wr.close()
+            running.append((i, p, rd, time.time()))
+        for item in list(running):
+            i, p, rd, t0 = item
+            done = False
+            if rd.poll(0.02):
+                try:
+                    results[i] = rd.recv()
+                except (EOFError, OSError):
+                    results[i] = dict(crash="the child process ended without a result")
+                done = True
+            elif not p.is_alive():
+                results[i] = dict(crash=f"the child process ended without a result (exit code {p.exitcode})")
+                done = True
+            elif time.time() - t0 > timeout:
+                p.kill()
+                results[i] = dict(crash=f"no result after {timeout} s")
+                done = True
+            if done:
+                p.join(5)
+                rd.close()
+                running.remove(item)
+    return results
+
+
+_HISTORY_SNIPPET = r"""
+import sys, json
+sys.path.insert(0, %r)
+import common
+common.use_repo_source()
+from props import c14
+H = json.load(sys.stdin)
+try:
+    rec = c14.run_history(H)
+except BaseException:
+    import traceback
+    rec = dict(id=H.get("id"), crash=traceback.format_exc()[-1200:])
+print("RESULT " + json.dumps(rec))
+"""
+
+
+def fresh_history_runs(hs, timeout=900):
+    """every history as the ONLY thing a new interpreter does (started together), results in order"""
+    import json
+    import os as _os
+    import subprocess
+    harness = _os.path.dirname(_os.path.dirname(_os.path.abspath(__file__)))
+    procs = []
+    for H in hs:
+        p = subprocess.Popen([common.PY, "-c", _HISTORY_SNIPPET % harness], stdin=subprocess.PIPE, stdout=subprocess.PIPE,
+                             stderr=subprocess.PIPE, text=True)
+        p.stdin.write(json.dumps(H))
+        p.stdin.close()
+        procs.append(p)
+    out = []
+    for p in procs:
+        try:
+            txt = p.stdout.read()
+            err = p.stderr.read()
+            p.wait(timeout=timeout)
+        except Exception as e:  # noqa: BLE001
+            p.kill()
+            out.append(dict(crash=f"{type(e).__name__}: {e}"))
+            continue
+        m = re.search(r"^RESULT (.*)$", txt, re.M)
+        out.append(json.loads(m.group(1)) if m else dict(crash="no RESULT line: " + err[-600:]))
+    return out
+
+
+def oracle_history(H):
+    """history and reference each in a NEW interpreter (the calling process may be polluted on a changed tree)"""
+    rec, ref = fresh_history_runs([H, reference_history(H)])
+    return judge_history(H, rec, ref)
+
+
+def call_histories(chk, tier):
+    import time
+    import pydrex.geometry as geo  # noqa: F401
+    t0 = time.time()
+    bad = []
+    hs = gen_histories(chk.seed, tier)
+    runs = forked_history_runs([x for H in hs for x in (H, reference_history(H))])
+    cov = chk.cov.setdefault("call_histories", {"histories": 0, "template": {}, "system": {}, "edit": {}, "function": {},
+                                                "judged_calls": 0, "with_pool": 0, "steps": {}, "disagreeing": 0})
+
+    def bump(k, v):
+        cov[k][str(v)] = cov[k].get(str(v), 0) + 1
+
+    B = Batch()
+    for j, H in enumerate(hs):
+        rec, ref = runs[2 * j], runs[2 * j + 1]
+        cov["histories"] += 1
+        bump("template", H["template"]); bump("system", H["system"]); bump("steps", len(H["steps"]))
+        cov["with_pool"] += int(any(s["op"] == "pool" for s in H["steps"]))
+        for e in (rec or {}).get("edits_made", []):
+            bump("edit", e)
+        ncalls = 0
+        for c in (rec or {}).get("calls", []):
+            if c["fn"] in HISTORY_FUNCTIONS:
+                bump("function", c["fn"])
+                ncalls += 1
+            if c["fn"] == "symmetry_operations" and c.get("system") in SYSTEMS:
+                # the operator list a call INSIDE the history returns vs the extracted model table
+                meta = dict(function="call_history", history=H, what=f"operators returned at step {c['step']} vs the model table")
+                v = c["value"]
+                if "l" not in v:
+                    bad.append((meta, f"symmetry_operations({c['system']}) at step {c['step']}: {show_enc(v)}"))
+                else:
+                    fl = []
+                    for o in v["l"]:
+                        o = np.array(dec_floats(o) or [math.nan]).reshape(o.get("shape", [-1]))
+                        fl += ([0.0] + list(o)) if o.shape == (4,) else ([1.0] + list(np.diag(o)) if o.ndim == 2 else [2.0] + list(o.reshape(-1)))
+                    B.add("symops", [SYSTEMS.index(c["system"])], [], expect_vec(bad, meta, ("OK", fl), atol=1e-15, rtol=0))
+        cov["judged_calls"] += ncalls
+        fails = judge_history(H, rec, ref)
+        chk.note_case(("history", H["id"], repr(H["steps"])), nontrivial=any(s["op"] in ("edit", "probe") for s in H["steps"]),
+                      sample=dict(function="call_history", id=H["id"], steps=len(H["steps"]), public_calls=ncalls,
+                                  edits=(rec or {}).get("edits_made", [])[:6]) if j == 0 else None)
+        if fails:
+            cov["disagreeing"] += 1
+            bad.append((dict(function="call_history", history=H), f"{len(fails)} judgements fail; first: {fails[0]}"))
+    B.run()
+    cov["wall_s"] = round(time.time() - t0, 2)
+    return bad
+
+
+def search_histories(chk, extra, add):
+    """candidates: the histories that disagreed in the correspondence, else the quick plan run in forked children of this
+    process; every candidate is CONFIRMED with history and reference each in a new interpreter before it is reported"""
+    cands, seen = [], set()
+    for m in extra:
+        H = m.get("history")
+        if H is not None and H["id"] not in seen:
+            seen.add(H["id"])
+            cands.append(H)
+    if not cands:
+        hs = gen_histories(chk.seed, "quick")
+        runs = forked_history_runs([x for H in hs for x in (H, reference_history(H))])
+        cands = [H for j, H in enumerate(hs) if judge_history(H, runs[2 * j], runs[2 * j + 1])]
+    # one candidate per template (templates in the order of the plan), the one with a pool opened before the edits if there
+    # is one (it exercises the batched clause too), else the shortest
+    best = {}
+    for H in cands:
+        k = (0 if any(s["op"] == "pool" for s in H["steps"]) else 1, len(H["steps"]))
+        if H["template"] not in best or k < best[H["template"]][0]:
+            best[H["template"]] = (k, H)
+    cands = [H for _, H in best.values()][:4]
+    if not cands:
+        return
+    res = fresh_history_runs([x for H in cands for x in (H, reference_history(H))])
+    for j, H in enumerate(cands):
+        fails = judge_history(H, res[2 * j], res[2 * j + 1])
+        if fails:
+            add(dict(call="call_history", history=H,
+                     note="a sequence of public calls in one process; run in a NEW interpreter, next to a reference interpreter in which "
+                          "the caller never edits a returned object"), fails[:12])
+
+
+# --------------------------------------------------------------------------
 # witnesses of the known findings (run on the implementation)
 # --------------------------------------------------------------------------
 TWOFOLD = np.array([np.diag(d) for d in ([1, 1, 1], [1, -1, -1], [-1, 1, -1], [-1, -1, 1])], dtype=float)
@@ -1546,6 +2217,7 @@ def search(chk, extra=()):
             if fails:
                 add(dict(call="misorientation_indices", ncpus=w, shape=list(m["stack"].shape),
                          stack=[hx(x) for x in m["stack"].reshape(-1)]), fails)
+    search_histories(chk, extra, add)
     search_large(chk, extra, add, lambda: not found)
     return found
 
@@ -1571,6 +2243,11 @@ def run(chk):
                        "rows x n_sym^2 x 8 bytes = 2^k (k = 28 for the system with most operators: 513..553 hexagonal grains, a cheaper k for every system) [thorough: k = 24, 26, 27, 28 and 2^16 / 2^17 pair rows for every system, 2000 triclinic grains], "
                        "each evaluated as generated and reordered (reversed / random permutation / blocks swapped), and row stacks handed to geometry.misorientation_angles directly (float32 / float64, above / at / below 2^28, 2^27, 2^26 bytes, "
                        "multiples and non-multiples of block sizes, 1999000 rows) whose value is compared with its value on head / tail / boundary windows, a strided gather and random pieces of the rows and with the model on sampled rows.  "
+                       "call histories (coverage.call_histories): 20 [thorough 40] sequences of 3..20 public calls in ONE process (symmetry_operations, misorientation_angles, misorientation_hist, misorientations_random, "
+                       "misorientation_index, misorientation_indices with ncpus / a pool opened earlier) where between calls the caller edits in place what an earlier call RETURNED (operator list truncated / reversed / "
+                       "entries dropped, duplicated, swapped, arrays rescaled / component-rolled / negated / zeroed / flipped; histogram + edges rescaled / zeroed; index / angle arrays zeroed) or reuses its own argument buffers, "
+                       "every call through argguard.guarded, every later call judged on its own (range, reordering, rebuilt index, batched = per-snapshot, unedited results unchanged, equal arguments -> equal values, "
+                       "value = the value of a reference process in which no result is edited; operator lists returned inside a history vs the model table); run in forked children, confirmed in new interpreters by the search.  "
                        "distinct = distinct (function, system, input bytes / recipe); "
                        "non-trivial = not a single-orientation texture / a result that is not an error")
     bad, variant = [], 0
@@ -1578,6 +2255,7 @@ def run(chk):
     if have_driver:
         bad, variant = correspondence(chk, chk.tier)
         bad += batched(chk, chk.tier)
+        bad += call_histories(chk, chk.tier)
         bad += large_aggregates(chk, chk.tier)
     chk.cov["disagreements"] = len(bad)
     # findings files: compiled = the refutation still holds of the model
@@ -1603,7 +2281,8 @@ def run(chk):
                         "required": "C14; known_findings.json marks this finding as fixed"})
         return
     found = search(chk, extra=[m for m, _ in bad])
-    dis = [{k: v for k, v in m.items() if k not in ("os", "stack", "q1", "q2", "large")} | {"detail": d} for m, d in bad[:5]]
+    dis = [{k: v for k, v in m.items() if k not in ("os", "stack", "q1", "q2", "large", "history")}
+           | ({"history": m["history"].get("id")} if "history" in m else {}) | {"detail": d} for m, d in bad[:5]]
     if found:
         for payload, fails in found:
             chk.replay({"kind": "property-violation", "input": payload, "observed": fails, "required": "C14 (see properties.jsonl)",
@@ -1632,6 +2311,8 @@ def replay(d):
     elif i["call"] == "misorientation_indices":
         stack = np.array([u(x) for x in i["stack"]]).reshape(i["shape"])
         fails = oracle_batched(dg, geo, stack, i["ncpus"])
+    elif i["call"] == "call_history":      # history and reference each in a NEW process
+        fails = oracle_history(i["history"])
     elif i["call"] in ("large_aggregate", "misorientation_angles_rowstack"):      # regenerated from the recipe
         fails = oracle_large(dg, st, geo, i)
     else:
